@@ -4,13 +4,17 @@ CONSTANTS MaxDepth
 VARIABLE h
 MCVals == {-2, 0, 1, 3}
 MCValsSmall == {-2, 3}
+KindsAll == {"compress", "repack", "condense", "export"}
+KindsQuick == {"compress", "export"}
 MCValsBig == {-2, -1, 0, 1, 2, 3}
 HInit == Init /\ h = <<>>
 HNext == Next /\ h' = Append(h, [step |-> last', data |-> data',
                                  min |-> NanMin(data'), max |-> NanMax(data'),
                                  mean |-> NanMean(data')])
-\* complete histories: the depth bound is reached or nothing more fits
-Emit == (Len(h) = MaxDepth) => PrintT(<<"H", ToJson(h)>>)
+\* every history (all lengths): the adapter observes only where the writer is
+\* closed anyway and at the end, so that one writer instance really spans
+\* consecutive appends; shorter histories cover the intermediate states
+Emit == (Len(h) >= 1) => PrintT(<<"H", ToJson(h)>>)
 HCon == Len(h) <= MaxDepth /\ Emit
 \* design-level run without history
 DInit == Init /\ h = <<>>
